@@ -263,6 +263,21 @@ func (e *Engine) lookupVar(fn *ssa.Function, li *loopInfo, st *State, name strin
 			return st.env[p], true
 		}
 	}
+	if name == "rangeslice" {
+		// the (unnamed) slice value a `for i, x := range s` loop iterates over: s as evaluated once at loop entry
+		for _, ins := range li.header.Instrs {
+			if b, ok := ins.(*ssa.BinOp); ok && b.Op == token.LSS {
+				if call, ok := b.Y.(*ssa.Call); ok {
+					if bi, ok := call.Call.Value.(*ssa.Builtin); ok && bi.Name() == "len" && len(call.Call.Args) == 1 {
+						if v, have := st.env[call.Call.Args[0]]; have {
+							return v, true
+						}
+					}
+				}
+			}
+		}
+		return Value{}, false
+	}
 	// source-level variables via debug refs / named allocs in blocks dominating the header
 	var found ssa.Value
 	isAddr := false
